@@ -516,9 +516,10 @@ func (e *enc) implSection(pkg *packages.Package) {
 	for _, name := range order {
 		obj := pkg.Types.Scope().Lookup(name)
 		tn, _ := obj.(*types.TypeName)
-		var named *types.Named
+		// an alias declaration denotes the type it is declared equal to
+		var named types.Type
 		if tn != nil {
-			named, _ = tn.Type().(*types.Named)
+			named = types.Unalias(tn.Type())
 		}
 		if named == nil {
 			e.w("TY", hx(name), "0", "0")
@@ -526,7 +527,9 @@ func (e *enc) implSection(pkg *packages.Package) {
 			e.i(0)
 			continue
 		}
-		isIface := types.IsInterface(named)
+		// "a pointer to it has no methods": interface types, and pointer types (nameable only through an alias)
+		_, isPtr := named.Underlying().(*types.Pointer)
+		isIface := types.IsInterface(named) || isPtr
 		e.w("TY", hx(name), "1")
 		if isIface {
 			e.w("1")
